@@ -19,8 +19,13 @@ TTable ==
 TArgOrder ==
   /\ l = 1 /\ l' = 2 /\ UNCHANGED tid /\ Traces[tid].fmt = "argorder"
   /\ Chk("HelperArgumentsInPrototypeOrder", Traces[tid].obs.in_order)
+(* the dust-extinction helper of the UCLCHEM CO photodissociation law, run on a grid: the fit that answers is chosen by the optical depth at
+   the wavelength -- the single exponential below 1, the five-term sum from 1 on *)
+TScatter ==
+  /\ l = 1 /\ l' = 2 /\ UNCHANGED tid /\ Traces[tid].fmt = "scatter"
+  /\ Chk("ScatteringFitChosenByDepthAtTheWavelength", IF Traces[tid].obs.below THEN Traces[tid].obs.single ELSE Traces[tid].obs.five)
 TCase ==
-  /\ l = 1 /\ l' = 2 /\ UNCHANGED tid /\ Traces[tid].fmt \notin {"table", "argorder"}
+  /\ l = 1 /\ l' = 2 /\ UNCHANGED tid /\ Traces[tid].fmt \notin {"table", "argorder", "scatter"}
   /\ LET t == Traces[tid]
          law == Law(t.fmt, t.code, t.a, t.b, t.c, t.zb, t.zc, t.sh)
      IN IF law = <<"refused">>
@@ -29,7 +34,7 @@ TCase ==
                /\ Chk("Rendered", ~t.obs.refused)
                /\ Chk("ValidC", t.obs.valid)
                /\ Chk("Law", t.obs.tree = law)
-TSpec == TInit /\ [][TCase \/ TTable \/ TArgOrder]_<<tid, l>>
+TSpec == TInit /\ [][TCase \/ TTable \/ TArgOrder \/ TScatter]_<<tid, l>>
 Track == TLCSet(tid, IF l > TLCGet(tid) THEN l ELSE TLCGet(tid))
 Verdicts == \A i \in 1..NT : PrintT(<<"VERDICT", Traces[i].tid, TLCGet(i), 2>>)
 =============================================================================
